@@ -290,3 +290,89 @@ func LoadReplay(t *testing.T) *Artifact {
 	}
 	return a
 }
+
+// Scenario is one closed system to explore.
+type Scenario struct {
+	Name  string
+	Bound int
+	Prune bool
+	Body  func(r *explore.Run)
+	After func(r *explore.Run)
+	Wrap  func(fn func())
+}
+
+// RunScenarios explores every scenario (or replays the artifact given with
+// -replay). With many scenarios the list is dealt round-robin to shards;
+// with few, each scenario's level-1 subtrees are.
+func (r *R) RunScenarios(t *testing.T, scs []Scenario) {
+	if a := LoadReplay(t); a != nil {
+		for _, sc := range scs {
+			if sc.Name != a.Violation.Scenario {
+				continue
+			}
+			e := &explore.Explorer{Scenario: sc.Name, Bound: 1 << 30, Body: sc.Body, Wrap: sc.Wrap}
+			run, fail := e.Replay(a.Violation.Choices)
+			for _, l := range run.Trace {
+				fmt.Println("  ", l)
+			}
+			if fail != nil {
+				fmt.Printf("REPLAY reproduces: %s: %s\n", fail.Signature, fail.Message)
+				t.Fatalf("violation reproduced")
+			}
+			fmt.Println("REPLAY: execution completes without violation")
+			return
+		}
+		t.Fatalf("scenario %q not found", a.Violation.Scenario)
+	}
+	i, n := Shard()
+	byScenario := len(scs) >= 2*n
+	for idx, sc := range scs {
+		if byScenario && idx%n != i {
+			continue
+		}
+		if r.Expired() {
+			r.Note("budget exhausted before scenario %s", sc.Name)
+			break
+		}
+		e := &explore.Explorer{Scenario: sc.Name, Bound: sc.Bound, Body: sc.Body, After: sc.After, Prune: sc.Prune, Wrap: sc.Wrap, Deadline: r.deadline}
+		if byScenario {
+			e.OnViolation = r.Violation
+			e.Explore()
+			r.AddStates(e.Stats.States, e.Stats.Executions, e.Stats.Pruned)
+			if e.Stats.Capped {
+				r.Capped()
+				r.Note("scenario %s capped after %d executions", sc.Name, e.Stats.Executions)
+			}
+		} else {
+			r.Run(e)
+		}
+	}
+}
+
+// SelfCheck replays the default execution of a scenario twice and demands
+// identical observations (trace and verdict). reset, if not nil, is called
+// before each replay to clear memoisation.
+func (r *R) SelfCheck(t *testing.T, sc Scenario, reset func()) {
+	e := &explore.Explorer{Scenario: sc.Name, Bound: 0, Body: sc.Body, Wrap: sc.Wrap}
+	sig := func(f *explore.Failure) string {
+		if f == nil {
+			return ""
+		}
+		return f.Signature
+	}
+	if reset != nil {
+		reset()
+	}
+	r1, f1 := e.Replay(nil)
+	if reset != nil {
+		reset()
+	}
+	r2, f2 := e.Replay(nil)
+	if reset != nil {
+		reset()
+	}
+	if sig(f1) != sig(f2) || strings.Join(r1.Trace, "\n") != strings.Join(r2.Trace, "\n") || fmt.Sprint(r1.Choices) != fmt.Sprint(r2.Choices) {
+		t.Fatalf("determinism self check failed for %s: verdicts %q / %q, traces equal=%v", sc.Name, sig(f1), sig(f2), strings.Join(r1.Trace, "\n") == strings.Join(r2.Trace, "\n"))
+	}
+	r.Determinism(fmt.Sprintf("default execution of %s replayed twice: identical traces (%d events, %d points) and verdicts", sc.Name, len(r1.Trace), len(r1.Points)))
+}
